@@ -14,7 +14,7 @@ Rules (on every instantiation of WrappableGrid<T,2|3>; dead `if (DIM == ..)` arm
 Not decided: equivalence with the sliding-window model over all histories (these are its necessary conditions)."""
 import sympy as sp
 from .. import sym, eint
-from ..tree import pp, walk, strip_casts, short_fn, const_value, stmts, prune
+from ..tree import sx, pp, walk, strip_casts, short_fn, const_value, stmts, prune
 import re
 
 LEVEL = 'other'
@@ -400,7 +400,8 @@ def check_wrap(fx, R, gq, dim):
     rl = [x for x in walk(fl['body']) if x.get('k') == 'Return']
     txt = pp(rl[0]['e']) if len(rl) == 1 else ''
     okl = 'this.wrapCellIndexes_(' in txt and '.dot(this.indexCoefficients_)' in txt
-    R.form(okl, 'O1', '%s::computeCellLinearIndex_' % cname, 'linear index is not wrap(indexes).dot(indexCoefficients_): %s' % txt, 'linear = wrap(logical) . coefficients', fx.rel(fl['loc']), 'E-SIB')
+    if okl or not flag_fast_path(fx, R, gq, cname, fl):
+        R.form(okl, 'O1', '%s::computeCellLinearIndex_' % cname, 'linear index is not wrap(indexes).dot(indexCoefficients_): %s' % txt, 'linear = wrap(logical) . coefficients', fx.rel(fl['loc']), 'E-SIB')
     def wraps_expr(e, env, depth=0):
         """number of times the wrap map is applied to the logical index on the way to the storage position; None if not resolved"""
         e = strip_casts(e)
@@ -493,6 +494,8 @@ def check_translate(fx, R, gq, dim):
                         R.violated('O3', '%s::translate:axis%d:extra-guard' % (cname, k_), 'the blanking of axis %d runs only when `%s`: besides a non-zero offset it requires %s, which is false for a grid with %s '
                                    '(grids of 1 cell per axis are inside the quantifier); there a non-zero translation along the axis moves every cell out of the window, yet nothing is blanked and the old values '
                                    'keep being read' % (k_, pp(s['c']), rest_, ', '.join('%s = %s' % (a_, b_) for a_, b_ in sub_.items())), fx.rel(s['loc']), 'E-ORD')
+                    elif shortcut_branch(fx, R, cname, f, s):
+                        continue                       # a shortcut that leaves the function: judged by value on witness translations; the axis blocks are judged as usual
                     else:
                         R.undecided('O3', '%s::translate' % cname, 'top-level branch `%s` is not an axis block `if (offset[k])`' % pp(s['c']))
                     unrecognised = True
@@ -500,6 +503,9 @@ def check_translate(fx, R, gq, dim):
                 k = int(symb.name[len('indexOffset['):-1])
                 blocks.setdefault(k, []).append(s)
             elif s['k'] in ('Expr', 'For'):
+                ap_ = assign_parts(s) if s['k'] == 'Expr' else None
+                if ap_ and pp(strip_casts(ap_[0])) in JUDGED_FLAGS.get(gq, ()):
+                    continue                 # a validity flag of the index map: its writers are judged by value with the map (O1)
                 R.undecided('O3', '%s::translate' % cname, 'statement outside the axis blocks: %s' % s['loc'])
                 unrecognised = True
         for k in range(dim):
@@ -533,6 +539,171 @@ def check_translate(fx, R, gq, dim):
             R.holds('O2', '%s::%s:modulus-lint' % (cname, g['name']), '%d `%%` node(s): no negative value enters an unsigned dividend' % n, fx.rel(g['loc']), 'E-INT')
         for (node, why) in signed_mod_to_unsigned(g):
             R.violated('O2', '%s::%s:signed-mod' % (cname, g['name']), why, fx.rel(node['loc']), 'E-INT')
+
+
+JUDGED_FLAGS = {}
+
+
+def flag_fast_path(fx, R, gq, cname, fl):
+    """The index map skips the wrap under a member flag: `if (!wrapped_) return <plain index>; return wrap(...).dot(...)`.  Skipping is right exactly when every offset is 0, so every writer of the flag is
+    evaluated (E-STEP, one generic axis) on witness (cells n, offset o before, translation d): whenever the flag it leaves selects the plain path, the offset after the call, (o + d) mod n, must be 0.
+    Returns True when a verdict was given."""
+    from .. import mini
+    from .C20 import deep_unwrap as _du
+    body = live(fl['body'])
+    if len(body) != 2 or body[0]['k'] != 'If' or body[0].get('e') is not None or body[1]['k'] != 'Return':
+        return False
+    tail = pp(body[1]['e'])
+    if not ('this.wrapCellIndexes_(' in tail and '.dot(this.indexCoefficients_)' in tail):
+        return False
+    arm = [x for x in walk(body[0]['t']) if x.get('k') == 'Return' and x.get('e') is not None]
+    if len(arm) != 1 or 'wrapCellIndexes_' in pp(arm[0]['e']):
+        return False
+    c = _du(sx(body[0]['c']))
+    if isinstance(c, tuple) and len(c) == 2 and c[0] in ('!', 'u!') and isinstance(c[1], str) and c[1].startswith('this.'):
+        flag, plain_when = c[1], False
+    elif isinstance(c, str) and c.startswith('this.'):
+        flag, plain_when = c, True
+    else:
+        return False
+    inst = '%s::computeCellLinearIndex_:fast-path' % cname
+    JUDGED_FLAGS.setdefault(gq, set()).add(flag)
+    fname = flag[len('this.'):]
+    # writers
+    writers = []
+    for g in fx.functions.values():
+        if g.get('cls') != gq or g.get('body') is None:
+            continue
+        if g.get('ctor'):
+            for i_ in g.get('inits', []):
+                if i_.get('field') == fname:
+                    writers.append((g, 'init', i_['e'], None))
+            continue
+        top = live(g['body'])
+        for n_, st_ in enumerate(top):
+            ap_ = assign_parts(st_) if st_['k'] == 'Expr' else None
+            if ap_ and pp(strip_casts(ap_[0])) == flag:
+                after = not any(x['k'] == 'If' for x in top[n_ + 1:])
+                writers.append((g, 'after' if after else 'before', ap_[1], st_))
+        for x in walk(g['body']):
+            if x.get('k') == 'Expr' and x not in top:
+                ap_ = assign_parts(x)
+                if ap_ and pp(strip_casts(ap_[0])) == flag:
+                    writers.append((g, 'nested', ap_[1], x))
+    if not writers:
+        R.undecided('O1', inst, 'the index map takes the plain path under `%s`, a member no function of the class writes' % flag)
+        return True
+    bad = why = None
+    n_ok = 0
+    for (g, where, e, st_) in writers:
+        if where == 'nested':
+            why = why or 'a write of %s inside a branch or loop of %s' % (flag, g['name'])
+            continue
+        if where == 'init':
+            cv = const_value(e)
+            if cv is None:
+                why = why or 'constructor initialiser of %s not a constant' % flag
+            elif bool(cv) == plain_when:
+                n_ok += 1              # plain path right after construction: offsets are zero there (checked by O2's constructor state)
+            else:
+                n_ok += 1
+            continue
+        pn = [p_['name'] for p_ in g['params']]
+        for (n_, o_, d_) in ((3, 1, 0), (3, 0, 0), (3, 0, 1), (3, 1, 2), (3, 2, -2), (4, 1, -5), (3, 1, 3), (2, 1, 1), (5, 0, -5)):
+            S_ = mini.Step(_du)
+            S_.hooks['.cast'] = lambda t, env: S_.ev(t[1], env)
+            o_after = (o_ + d_) % n_
+            env = {'this.numberOfCellsAlongAxes_': n_, 'this.indexOffsetsAlongAxes_': o_after if where == 'after' else o_, 'this.numberOfCellsAlongAxesMinusOne_': n_ - 1, flag: False}
+            if pn:
+                env[pn[0]] = d_
+            try:
+                v_ = S_.ev(_du(sx(e)), env)
+            except (mini.Unsupported, TypeError) as u:
+                why = why or '%s = %s in %s is not evaluable: %s' % (flag, pp(e)[:80], g['name'], str(u)[:80])
+                break
+            n_ok += 1
+            if bool(v_) == plain_when and o_after != 0:
+                bad = bad or (g, st_, n_, o_, d_, o_after, pp(e))
+    if bad:
+        g, st_, n_, o_, d_, oa, txt = bad
+        R.violated('O1', '%s::computeCellLinearIndex_:fast-path:stale-flag' % cname.split('<')[0], 'the index map skips the wrap while `%s` is %s, and %s() sets that member to `%s`.  On a grid of %d cells per axis whose '
+                   'accumulated offset is %d, a translation by %d cells leaves the offset %d and the flag %s: every later access takes the plain path although the offset is not zero - each logical cell reads the value '
+                   'of another one, although nothing moved (%s), and the next scroll blanks the wrong cells%s' % (
+                       flag, plain_when, g['name'], txt[:100], n_, o_, d_, oa, plain_when, 'a translation by the null vector is inside the quantifier' if d_ == 0 else 'the offset of this call cancels nothing',
+                       '.  The flag is computed from the argument of this call, not from the accumulated offset' if (g.get('params') and g['params'][0]['name'] in txt and 'indexOffsetsAlongAxes_' not in txt) else ''),
+                   fx.rel((st_ or g)['loc']), 'E-STEP')
+        return True
+    if why:
+        R.undecided('O1', inst, 'the index map takes the plain path under `%s`; %s' % (flag, why))
+        return True
+    R.holds('O1', inst, 'the plain path is taken only in states whose offset is zero: every writer of `%s` evaluated on %d witness (size, offset, translation) triples' % (flag, n_ok), fx.rel(fl['loc']), 'E-STEP')
+    return True
+
+
+def shortcut_branch(fx, R, cname, f, node):
+    """A top-level `if (cond) { ...; return; }` of translate() in front of the axis phases, evaluated (E-STEP, one generic axis: every axis gets the same numbers) on witness (cells n, accumulated offset o,
+    translation d): when the branch is taken the offset it leaves must be (o + d) mod n and the grid must have been blanked as a whole.  Returns True when a verdict was given."""
+    from .. import mini
+    from .C20 import deep_unwrap as _du
+    if node.get('e') is not None or not any(y.get('k') == 'Return' for y in walk(node.get('t') or {})):
+        return False
+    pn = [p_['name'] for p_ in f['params']]
+    if len(pn) < 1:
+        return False
+    taken, bad, why = 0, None, None
+    for (n_, o_, d_) in ((3, 0, 4), (3, 1, 3), (3, 2, -4), (4, 1, -5), (1, 0, 1), (2, 1, 3), (3, 0, 3), (3, 1, 1), (4, 0, -2), (5, 2, 0)):
+        S_ = mini.Step(_du)
+        calls = []
+        for h_ in ('.setValue', '.setConstant_', '.clear', '.blank'):
+            S_.hooks[h_] = lambda t, env, h_=h_: calls.append((h_, t[2:])) or 0
+        S_.hooks['.setZero'] = lambda t, env: env.__setitem__(S_.key(t[1]), 0) or 0
+        S_.hooks['.setConstant'] = lambda t, env: env.__setitem__(S_.key(t[1]), S_.ev(t[2], env)) or 0
+        S_.hooks['.fill'] = S_.hooks['.setConstant']
+        S_.hooks['.cast'] = lambda t, env: S_.ev(t[1], env)
+        env = {pn[0]: d_, 'this.numberOfCellsAlongAxes_': n_, 'this.indexOffsetsAlongAxes_': o_, 'this.numberOfCellsAlongAxesMinusOne_': n_ - 1}
+        if len(pn) > 1:
+            env[pn[1]] = -777
+        try:
+            c_ = S_.ev(_du(sx(node['c'])), env)
+            if not c_:
+                continue
+            try:
+                S_.run(node['t'], env)
+            except mini.Returned:
+                pass
+        except (mini.Unsupported, TypeError) as u:
+            why = str(u)[:140]
+            break
+        taken += 1
+        want = (o_ + d_) % n_
+        got = env.get('this.indexOffsetsAlongAxes_')
+        blanked = any(h_ == '.setValue' and a_ and a_[0] == pn[-1] for (h_, a_) in calls)
+        if got != want:
+            bad = bad or ('offset', n_, o_, d_, got, want)
+        elif d_ != 0 and abs(d_) < n_ and not bad:
+            bad = ('partial', n_, o_, d_, got, want)
+        elif abs(d_) >= n_ and not blanked:
+            why = why or 'the branch is taken for a translation of %d cells on an axis of %d and no whole-grid blanking with the empty value was recognised in it' % (d_, n_)
+    if why:
+        R.undecided('O3', '%s::translate:shortcut' % cname, 'branch `%s` in front of the axis phases leaves the function; not evaluable: %s' % (pp(node['c'])[:120], why))
+        return True
+    if bad and bad[0] == 'offset':
+        R.violated('O2', '%s::translate:shortcut:offset' % cname.split('<')[0], 'under `%s` translate() leaves through a shortcut in front of the axis phases.  Evaluated on a grid of %d cells per axis with an accumulated '
+                   'offset of %d and a translation of %d cells along every axis the branch is taken and leaves the offset %s; the accumulated offset modulo the grid size is %d.  The cell contents are right (everything '
+                   'is blank) but the reported index offset is not the accumulated one, and every later translation accumulates on the wrong origin' % (pp(node['c'])[:160], bad[1], bad[2], bad[3], bad[4], bad[5]),
+                   fx.rel(node['loc']), 'E-STEP')
+        return True
+    if bad:
+        R.violated('O3', '%s::translate:shortcut:partial' % cname.split('<')[0], 'under `%s` translate() leaves through a shortcut in front of the axis phases; the branch is taken for a translation of %d cells on a grid '
+                   'of %d cells per axis, where %d columns survive: the axis phases that blank exactly the cells that left the window are skipped' % (pp(node['c'])[:160], bad[3], bad[1], bad[1] - abs(bad[3])),
+                   fx.rel(node['loc']), 'E-STEP')
+        return True
+    if taken:
+        R.holds('O3', '%s::translate:shortcut' % cname, 'the shortcut `%s` is taken by %d witness translations (all of at least the grid size on every axis): it blanks the grid with the empty value and leaves the '
+                'accumulated offset modulo the size' % (pp(node['c'])[:100], taken), fx.rel(node['loc']), 'E-STEP')
+        return True
+    R.undecided('O3', '%s::translate:shortcut' % cname, 'branch `%s` leaves the function; no witness translation takes it' % pp(node['c'])[:120])
+    return True
 
 
 def signed_mod_to_unsigned(g):
